@@ -65,7 +65,7 @@ def inject_cond(g, spec):
             out.append(("unknown pre-processor", {".".join([toks[0], "size", toks[1]]): v}))
             out.append(("pre-processor without callable", {".".join([toks[0], "length"]): v}))
         out.append(("four tokens", {k + ".x": v}))
-        out.append(("several keys", dict(spec, **{"value.truthy": None})))
+        out.append(("several keys", dict(spec, **{("value.truthy" if "value.truthy" not in spec else "value.falsy"): None})))
         if toks[-1].lower() in ("is_instance", "keys_is_instance"):
             out.append(("unknown type name", {k: ["int", "integer"]}))
         if toks[-1].lower() in ("in_range", "not_in_range", "keys_contain_n_of"):
